@@ -38,6 +38,8 @@ type Obligation struct {
 	Func    string
 	NFacts  int
 	NegGoal string
+	PreGoal   string // call covers: reach condition before the callee contract was assumed
+	PreNFacts int
 	Pos     token.Position
 	Desc    string
 	Script  *Script
@@ -73,6 +75,7 @@ type FnCtx struct {
 	usesPtrTag bool
 	wfDone     map[string]bool
 	boxInv     map[string]bool
+	callCovered map[string]bool
 	next0      *Term
 	epochs     int
 	ghostSorts map[string]Sort
